@@ -15,6 +15,8 @@ MANIFEST = {
 def run(ctx):
     lrfamily.obligations(ctx, MODULE, THEOREMS)
     lrfamily.driver_layer(ctx, "C16")
+    # recovery-focused run: every grammar uses `!`, inputs with bursts of junk and truncations
+    lrfamily.driver_layer(ctx, "C16", grammars=ctx.vol(60, 600), inputs=ctx.vol(60, 120), exh=0, extra=["bang=always"], tag="recovery_focus")
     lrfamily.compiled_layer(ctx, "C16")
     ctx.coverage.setdefault("trusted_base", []).extend(lrfamily.TRUST_LR)
     ctx.coverage["rule"] = ("grammars from LR-biased templates, mutations and random CFGs x {lane-table, canonical LR(1), LALR}; "
